@@ -420,8 +420,9 @@ def check_C01(tier, seed, t0):
 def check_C06(tier, seed, t0):
     return wire_check('C06', tier, seed, t0, STD_ASSUME + ["12.48in partial writes: see C15",
                       "Properties/C06w.v: for epd4in2 (x < 256), epd1in02, epd2in7, epd2in7b the window theorems hold for ALL aligned in-panel windows, all buffers, every idle controller state (universally quantified x y w h), not only the alphabet's windows",
-                      "Properties/C06x.v: for the partial entry points with listed findings (epd1in54, epd1in54_v2, epd2in9, epd2in13_v2, epd2in9_v2, epd2in7_v2, epd2in66b, epd5in83b_v2, epd4in2 x>=256, epd7in5b_v2, epd2in9d) the EXACT clause list chk_c06 reports and the geometry programmed are proved for ALL aligned in-panel windows, every buffer, every havoc'd controller state - the finding classes are theorems, not samples"],
-                      extra_files=['Properties/C06w.v', 'Properties/C06x.v'])
+                      "Properties/C06x.v: for the partial entry points with listed findings (epd1in54, epd1in54_v2, epd2in9, epd2in13_v2, epd2in9_v2, epd2in7_v2, epd2in66b, epd5in83b_v2, epd4in2 x>=256, epd7in5b_v2, epd2in9d) the EXACT clause list chk_c06 reports and the geometry programmed are proved for ALL aligned in-panel windows, every buffer, every havoc'd controller state - the finding classes are theorems, not samples",
+                      "Properties/C06h.v: the state hypotheses of C06w/C06x (ssd_havoc / idle) are checked on every state of the closed reachable sets, so the all-window statements hold after EVERY history: history and window both universally quantified"],
+                      extra_files=['Properties/C06w.v', 'Properties/C06x.v', 'Properties/C06h.v'])
 def check_C05(tier, seed, t0):
     bv, n = big_property_check('C05', seed, tier)
     return wire_check('C05', tier, seed, t0, STD_ASSUME + ["real time is abstracted to poll counts (virtual clock of the mocks)",
